@@ -3,6 +3,7 @@ import json
 import os
 
 from ..core.sym import evaluate, strip_sites
+from ..core.terms import T as T_  # noqa
 from ..core.terms import show, subterms
 from ..core import bytesnf as B
 from .common import where, reachable_fns, SPEC_DIR
@@ -53,6 +54,9 @@ def run(ctx):
     ctx.assume("vsss-rs 4.3.8: combine_shares(_group) returns Err for fewer than 2 shares; uint-zigzag 0.2: Uint::peek(buf)==Some(n) implies n<=buf.len() and try_from(&buf[..n]) is Ok")
 
 
+_counted_exit = F.counted_exit
+
+
 def check_loops(ctx, P, reach):
     """Every loop in reached hand-written functions exits through an iterator's None, a guarded
     induction, or is individually justified."""
@@ -79,9 +83,11 @@ def check_loops(ctx, P, reach):
                         elif d is not None and any(s.op == "call" and B.cname(s) in ("MapAccess::next_key", "SeqAccess::next_element", "MapAccess::next_entry") for s in subterms(d)):
                             # driven by the caller's deserializer (environment call, assumed to terminate)
                             kinds.append("iterator")
+                        elif d is not None and _counted_exit(ev, h, d):
+                            kinds.append("counted")
                         elif d is not None:
                             kinds.append(show(strip_sites(d), 3))
-            ok = "iterator" in kinds
+            ok = "iterator" in kinds or "counted" in kinds
             just = None
             if not ok:
                 if f.key == "helpers::scalar_from_hkdf_bytes":
